@@ -1695,7 +1695,7 @@ fn gen_special(r: &mut Rng, origin: &LName) -> Vec<Rs> {
 fn exhaustive(rec: &mut Recorder) {
     let o = nm("e.");
     let owners = [nm("a.e."), nm("*.e."), nm("b.a.e."), nm("*.a.e."), nm("c.e.")];
-    let qnames = [nm("e."), nm("a.e."), nm("b.a.e."), nm("c.e."), nm("x.e."), nm("x.a.e."), nm("x.b.a.e."), nm("*.e."), nm("x.*.e.")];
+    let qnames = [nm("e."), nm("a.e."), nm("b.a.e."), nm("c.e."), nm("x.e."), nm("x.a.e."), nm("x.b.a.e."), nm("*.e."), nm("x.*.e."), nm("*.x.e.")];
     // options: nothing | A | TXT | CNAME a.e. | CNAME x.a.e. | NS (cut)
     let n_opt = 6usize;
     let total = n_opt.pow(owners.len() as u32);
@@ -1726,6 +1726,12 @@ fn exhaustive(rec: &mut Recorder) {
                 if (code + i + j) % 5 == 0 {
                     exec(&format!("dev{}", &l[1..]), rec);
                 }
+                // every 9th zone also signed (NSEC; NSEC3 for every 45th), DO=1
+                if code % 9 == 4 && dev::zone_wf(&z, &o) {
+                    let mode = if code % 45 == 4 { '3' } else { 'n' };
+                    let c = Case { mode, origin: o.clone(), zone: z.clone(), qname: qn.clone(), qtype: *qt, dnssec_ok: true, store: None };
+                    exec(&case_line(&c), rec);
+                }
             }
         }
     }
@@ -1745,7 +1751,7 @@ pub fn run(o: &Opts, rec: &mut Recorder) {
     }
     let mut r = Rng::new(o.seed);
     let origin = nm("example.");
-    let zones = o.n(260, 6000);
+    let zones = o.n(1000, 6000);
     for zi in 0..zones {
         let z = if zi % 3 == 2 { gen_special(&mut r, &origin) } else { gen_zone(&mut r, &origin) };
         let qs = gen_qnames(&mut r, &origin, &z);
